@@ -3,7 +3,7 @@
     see tools/props/C20.py for the serialiser on the Python side. *)
 From Coq Require Import Ascii String List Bool Arith ZArith NArith.
 From PTBase Require Import Exn PyStr PyNum PyVal Wire.
-From P Require Import Lang Convert WaiweraJson.
+From P Require Import Lang Convert WaiweraJson SourceJson.
 From Gen Require Import GenConvert.
 Import ListNotations.
 Open Scope char_scope.
@@ -117,6 +117,36 @@ Definition pgeom (f : list str) : option geom :=
   end.
 Definition scell (o : option Z) : str := match o with None => ["N"] | Some z => show_z z end.
 
+(** full sources: numbers as fractions n/d *)
+Definition pq (s : str) : Z * Z := match split_c "/" s with [a; b] => (z_of_str a, z_of_str b) | _ => (0%Z, 1%Z) end.
+Definition pqlist (s : str) : list (Z * Z) := match s with [] => [] | _ => map pq (split_c "|" s) end.
+Definition pgval (e : str) : gval :=
+  match split_c "~" e with
+  | [gx; ex; fg; hg; tm; rt; en] =>
+      {| v_gx := pq gx; v_ex := pq ex; v_fg := pq fg; v_hg := match hg with "N" :: _ => None | _ => Some (pq hg) end;
+         v_time := pqlist tm; v_rate := pqlist rt; v_enth := pqlist en |}
+  | _ => gval0
+  end.
+Definition psin (x : xin) (f : list str) : option sin :=
+  match f with
+  | vals :: tr :: neq :: m12 :: _ =>
+      Some {| s_x := x; s_vals := map pgval (lst vals); s_tracer := str_eqb tr (s2l "1"); s_numeq := z_of_str neq; s_mop12 := z_of_str m12 |}
+  | _ => None
+  end.
+Definition show_q (q : Z * Z) : str := "q" :: show_z (fst q) ++ "/" :: show_z (snd q).
+Fixpoint show_jv (v : jv) : str :=
+  match v with
+  | JNum q => show_q q
+  | JInt z => "i" :: show_z z
+  | JStr t => "s" :: hex (s2l t)
+  | JName t => "s" :: hex t
+  | JNull => ["N"]
+  | JTable rows => "[" :: joinc "," (map (fun r => "[" :: show_q (fst r) ++ "," :: show_q (snd r) ++ ["]"]) rows) ++ ["]"]
+  | JList l => "[" :: joinc "," ((fix go (l : list jv) : list str := match l with [] => [] | x :: r => show_jv x :: go r end) l) ++ ["]"]
+  | JObj o => "{" :: joinc "," ((fix go (l : list (string * jv)) : list str :=
+                                   match l with [] => [] | (k, x) :: r => (hex (s2l k) ++ "=" :: show_jv x) :: go r end) o) ++ ["}"]
+  end.
+Definition show_obj (o : obj) : str := show_jv (JObj o).
 Definition run_geom (f : list str) : str :=
   match pgeom f with
   | Some g => sres (fun l => joinc "," (map sx l)) (block_name_list g)
@@ -145,6 +175,11 @@ Definition run_case (line : str) : str :=
                    if str_eqb op (s2l "eos") then l_eos
                    else if str_eqb op (s2l "rocks") then l_rocks
                    else if str_eqb op (s2l "srcs") then l_srcs
+                   else if str_eqb op (s2l "src") then
+                     match psin x (skipn 27 rest) with
+                     | Some sn => sres (fun l => joinc ";" (map show_obj l)) (sources_full sn)
+                     | None => s2l "BADCASE"
+                     end
                    else if str_eqb op (s2l "exp") then
                      let l_init := sres (fun l => joinc "," (map show_z l)) (initial_cells x) in
                      let l_bdy := sres (fun l => joinc ";" (map (fun e => sx (fst e) ++ ":" :: show_z (fst (snd e)) ++ ":" :: joinc "," (map show_z (snd (snd e)))) l))
